@@ -11,13 +11,20 @@ def regen_encoder_tables(ctx):
 
 
 def sweep_no_panic(ctx):
-    """all 2^24 colours x 3 roles x 3 depths through the real encoder (harness tool c20sweep, shared with C20):
+    """every 3rd of the 2^24 colours x 3 roles x 3 depths through the real encoder (harness tool c20sweep, shared with C20, whose own check runs all of them):
     for C05 this is the run that backs 'no panic' on the f32 reduction path, which the model does not contain"""
     import importlib.util
     spec = importlib.util.spec_from_file_location("props_c20", os.path.join(ctx["root"], "props.d", "C20.py"))
     mod = importlib.util.module_from_spec(spec)
     spec.loader.exec_module(mod)
-    res = mod.sweep(ctx)
+    # every 3rd colour here (the exhaustive run is part of C20's check); VERIF_C20_STRIDE overrides
+    old = os.environ.get("VERIF_C20_STRIDE")
+    os.environ["VERIF_C20_STRIDE"] = old or "3"
+    try:
+        res = mod.sweep(ctx)
+    finally:
+        if old is None:
+            os.environ.pop("VERIF_C20_STRIDE", None)
     cov = {"c20sweep_" + k: v for k, v in res.get("coverage", {}).items()}
     return {"violations": res.get("violations", []), "coverage": cov, "notes": res.get("notes", [])}
 
@@ -29,8 +36,10 @@ PROP = {'gen': [],
  'coq_corr': ['theories/Corr/C05Corr.vo'],
  'props_file': 'theories/Props/C05.v',
  'props_module': 'Props.C05',
- 'corr_check': 'SNT.Corr.C05Corr.c05_check (model Encoder/Encode.v vs surf_n_term::encoder::TTYEncoder::encode; predicate: '
-               'independent VT/xterm parser+interpreter Encoder/VT.v applied to the implementation bytes = Encoder/Denote.v)',
+ 'corr_check': 'SNT.Corr.C05Corr.c05_check (model Encoder/Encode.v vs surf_n_term::encoder::TTYEncoder::encode; predicate: independent '
+               'VT/xterm parser+interpreter Encoder/VT.v applied to the implementation bytes = Encoder/Denote.v; streams through one '
+               'encoder: operation list and final terminal state (Encoder/Term.v); renderer sessions (Corr/C05bCorr.v): screen through the '
+               'bytes = show S)',
  'level_text': 'Coq theorems over an executable model of TTYEncoder::encode (all 27 TerminalCommand variants; 24 carry content, Image/ImageErase emit nothing in this encoder and Raw means its '
                'own bytes, so those three arms are tautological; Chunks join, colour '
                'encoding per depth, alt-screen keyboard bracketing) and an independent UTF-8-mode ECMA-48/xterm parser+interpreter '
@@ -40,14 +49,18 @@ PROP = {'gen': [],
                'command the parser is back in its initial state, so streams of commands parse back into the same operations '
                'whatever complete output preceded; the model has no Panic path for any input, also with the C20 colour reduction (table '
                'indexing, nearest) plugged in (C05_nopanic_with_reduction; f32 evaluation itself is not modelled and is covered by the '
-               'exhaustive c20sweep run, which reports encoder panics). DEC mode numbers, KEYBOARD_LEVEL and '
+               'c20sweep run (every 3rd colour as an extra hook of this check, all 2^24 in C20\'s check), which reports encoder panics). DEC mode numbers, KEYBOARD_LEVEL and '
                'grey-depth SGR codes are regenerated from the source each run and the theorems re-checked; the model is tied to the '
                'code by a differential run (single commands, and streams through ONE encoder object with deliberate repetitions of stateful '
-               'commands around Reset / alt-screen / keyboard-level / mode / face changes; for streams the FINAL TERMINAL STATE from clean and '
-               'dirty initial states is compared, C05_stream_one_encoder: one encoder object = concatenation of self-contained encodings). Composition with C01 (true colour): the bytes of every '
+               'commands around Reset / alt-screen / keyboard-level / mode / face changes; for streams the operation list AND the FINAL TERMINAL STATE from clean '
+               'and dirty initial states are compared, C05_stream_one_encoder: one encoder object = concatenation of self-contained encodings). Composition with C01 (true colour): the bytes of every '
                'renderer command, read by this interpreter and run on C01\'s reference screen, do exactly what the command does there '
                '(C05_C01_bytes/_list/_history_bytes), hence after every history ending in a frame the screen reached through the BYTES '
-               'displays show(S) (C05_C01_history_final, corollary of C01); renderer sessions are checked this way end to end.',
+               'displays show(S) (C05_C01_history_final, corollary of C01); renderer sessions are checked this way end to end. Counted theorems (16): C05_meaning, _face_exact, _face_reduced, '
+               '_facemodify_reduced, _selfcontained, _stream_after_complete_prefix, _stream_one_encoder (about the model, close to '
+               'definitional), _parser_concat, _nopanic, _nopanic_with_reduction, _char_introducer_refuted_before_fix, _decmodes, '
+               'C05_C01_bytes, _list, _history_bytes, _history_final. Nine crate defects found and fixed (dc2484b 99cef6a 79f9e06 bdc3281 '
+               '3326eaa c4fb555 4d6dbe2 cdeff57 73d8d1c); no open known finding.',
  'level_note': 'Trusted: Coq kernel + vm_compute; translate/enc_tables.py; hand-written model Encoder/Encode.v validated by the '
                'correspondence run; the VT/xterm interpreter Encoder/VT.v and the denotation Encoder/Denote.v ARE the specification '
                '(written from ECMA-48, the DEC parser state machine, xterm ctlseqs, the kitty keyboard protocol). Palette index / grey '
@@ -55,7 +68,7 @@ PROP = {'gen': [],
                'No axioms (Print Assumptions: closed under the global context).',
  'technique': 'Coq proof + regenerated tables + model/implementation correspondence',
  'design_ref': 'DESIGN.md 6.5',
- 'n_quick': 3000,
+ 'n_quick': 2000,
  'n_thorough': 60000,
  'shard': 500,
  'level': 'proof',
@@ -65,7 +78,8 @@ PROP = {'gen': [],
                   'hand-written model Encoder/Encode.v of TTYEncoder::encode / Chunks / color_sgr_encode, tied to the code by the '
                   'correspondence run',
                   'specification: Encoder/VT.v (UTF-8 decoder per Unicode Table 3-7, DEC/ECMA-48 parser state machine, xterm/kitty '
-                  'interpretation of CSI/OSC/DCS/ESC, SGR as a transformer of renditions) and Encoder/Denote.v (meaning of each command)',
+                  'interpretation of CSI/OSC/DCS/ESC, SGR as a transformer of renditions) Encoder/Denote.v (meaning of each command, spec decisions D1-D10) and Encoder/Term.v (terminal state machine over the operations)',
+                  'harness/src/tool_c20sweep.rs (shared with C20, unproved): every 3rd colour x 3 roles x 3 depths through the real encoder, here for "no panic" on the f32 reduction path (exhaustive in C20)',
                   'composition with C01: Render/Screen.v cell-writing primitives (put_char, erase_cells), its oracle (wcwidth, look of '
                   'blank / erased cells) and image placement model are shared assumptions; face ids and Face values correspond one to one',
                   HARNESS],
